@@ -261,8 +261,8 @@ func (p *Policer) processNodes(ctx context.Context, plc *processPlacementContext
 		// nodes MAY not respond with object, however, this is how we
 		// prevent spam with new replicas.
 		// However, additional copies should not be removed in this case,
-		// because we can remove the only copy this way.
-		plc.checkedNodes.submitReplicaHolder(node)
+		// because we can remove the only copy this way. For the same reason
+		// such nodes are not recorded as confirmed replica holders.
 		shortage--
 		uncheckedCopies++
 
@@ -353,7 +353,10 @@ func (p *Policer) processNodes(ctx context.Context, plc *processPlacementContext
 		)
 
 		p.tryToReplicate(ctx, plc.object.Address, shortage, candidates, plc.checkedNodes)
-	} else if len(candidates) > 0 {
+		return
+	}
+
+	if len(candidates) > 0 {
 		// The required number of replicas exists, but some primary placement
 		// nodes are missing the object. Replicate to them so that the placement
 		// matches the policy.
@@ -366,9 +369,12 @@ func (p *Policer) processNodes(ctx context.Context, plc *processPlacementContext
 		)
 
 		p.tryToReplicate(ctx, plc.object.Address, uint32(len(candidates)), candidates, plc.checkedNodes)
-	} else if uncheckedCopies > 0 {
+	}
+
+	if uncheckedCopies > 0 {
 		// If we have more copies than needed, but some of them are from the maintenance nodes,
-		// save the local copy.
+		// save the local copy. Replication to the misplaced primary nodes above MAY have failed,
+		// so it does not make the local copy redundant.
 		plc.needLocalCopy = true
 		p.log.Debug("some of the copies are stored on nodes under maintenance, save local copy",
 			zap.Int("count", uncheckedCopies))
